@@ -105,6 +105,27 @@ class An:
                 out.setdefault('otherwise', []).append((b, t['o']))
         return out
 
+    def dest_variant_edges(self, call_block):
+        """{discriminant value: [(switch block, target)]} for switches on `discriminant(<destination local of the call>)`
+        (syntactic: works for calls that flow.expr treats as transparent, e.g. Iterator::next)."""
+        d = self.blocks[call_block]['t']['d']
+        out = {}
+        if 'p' in d:
+            return out
+        for b in sorted(self.cfg.reach0):
+            t = self.blocks[b]['t']
+            if t['k'] != 'switch':
+                continue
+            dl = (t['d'].get('mv') or t['d'].get('cp') or {}).get('l')
+            for s in self.blocks[b]['s']:
+                r = s.get('r')
+                if r and r['k'] == 'discr' and s['d']['l'] == dl and r['p'] == {'l': d['l']}:
+                    for v, tgt in t['ts']:
+                        out.setdefault(str(v), []).append((b, tgt))
+                    if t['o'] in self.cfg.succ[b]:
+                        out.setdefault('otherwise', []).append((b, t['o']))
+        return out
+
     def stores_to_field(self, field, owner_suffix=None):
         """[(block, stmt idx, stmt)] assignments whose destination's last field projection is `field`."""
         out = []
